@@ -133,7 +133,7 @@ def tlc_ok(res, what):
 
 
 # --------------------------------------------------------------------------- replay
-def replay(harness, cases_path, results_path, nworkers=NCPU, limit="5s", extra_args=(), obs_path=None):
+def replay(harness, cases_path, results_path, nworkers=NCPU, limit="5s", extra_args=(), obs_path=None, cmd="replay"):
     """Feeds the cases to nworkers single-goroutine harness processes (round robin).
     A worker that meets a hang exits with 3 after reporting it; the remaining cases of
     its share are given to a fresh worker."""
@@ -156,7 +156,7 @@ def replay(harness, cases_path, results_path, nworkers=NCPU, limit="5s", extra_a
                 f.writelines(share)
             fo = open(outp, "w")
             obs_args = ["-obs", outp + ".obs"] if obs_path else []
-            p = subprocess.Popen([harness, "replay", "-limit", limit] + obs_args + list(extra_args), stdin=open(inp),
+            p = subprocess.Popen([harness, cmd, "-limit", limit] + obs_args + list(extra_args), stdin=open(inp),
                                  stdout=fo, stderr=subprocess.PIPE)
             procs.append((i, share, p, fo, inp, outp))
         pending = []
